@@ -24,6 +24,14 @@ ENV_K = 4096            # rounding envelope of a double-precision evaluation: EN
 INACTIVE_TOL = 2e-5     # relative to max |coefficient| (float storage 6e-8, two different normal-equation bases)
 
 
+SHAPES = ["noisy increasing", "decreasing", "oscillating", "noise", "steps with outliers", "inactive (smooth increasing)",
+          "small magnitude: gentle linear fall (step per coefficient 1e-14..1e-6, visible in float32)",
+          "small magnitude: mixture (rise or steep fall + gentle fall, or gentle fall + rise to a large amplitude)",
+          "small magnitude: plateau with a ripple/noise of the size of the gentle step",
+          "shapes 0..4 scaled by 2^-10..2^-45", "inactive (smooth increasing) scaled by 2^-7..2^-40",
+          "small magnitude: gentle drift of a table that is negative or crosses zero"]
+
+
 def dbl(u): return struct.unpack("d", struct.pack("Q", int(u)))[0]
 def flt(u): return struct.unpack("f", struct.pack("I", int(u)))[0]
 def frac(s):
@@ -38,7 +46,7 @@ def build(ctx, mode):
 def describe(pline):
     w = pline.split()
     return {"problem_line": pline if len(pline) < 60000 else pline[:60000] + " ...", "ndim": int(w[1]), "monodim": int(w[2]),
-            "data": ["noisy increasing", "decreasing", "oscillating", "noise", "steps with outliers", "inactive (smooth increasing)"][int(w[3])],
+            "data": SHAPES[int(w[3])] if int(w[3]) < len(SHAPES) else w[3],
             "replay_cmd": "python3 bin/check.py C10 --replay <this file>"}
 
 
@@ -194,7 +202,7 @@ def run(ctx):
             ctx.tie_ok = False; ctx.broken.append({"kind": "harness build failed", "mode": mode}); continue
         base = os.path.join(ctx.scratch, "c10_" + mode)
         n = nfits if mode == "shipped" else nfits // 5
-        rc, out, err, retries = run_harness(ctx, exe, [str(n), base + ".in", base + ".impl", base + ".stats"], mode)
+        rc, out, err, retries = run_harness(ctx, exe, [str(n), base + ".in", base + ".impl", base + ".stats", str(n)], mode)
         acc["hang_retries"] += retries
         if rc != 0:
             ctx.tie_ok = False
